@@ -44,7 +44,11 @@ type c14pOp struct {
 	Att    string `json:"att,omitempty"`    // new | keep | none | steal (the digest of the secret attachment of doc "shared")
 	Cheat  string `json:"cheat,omitempty"`  // "" honest | corrupt | short | noproof
 	Parent string `json:"parent,omitempty"` // "" current | stale (the revision before the current one) | none
-	Ms     int    `json:"ms,omitempty"`
+	Name   int    `json:"name,omitempty"`   // which attachment name the op adds / replaces (documents carry up to three)
+	// NewRevpos: the stubs of unchanged attachments carry the new revision's generation as revpos (as older clients
+	// send them) instead of the generation they were added in, so that the gateway compares their digests
+	NewRevpos bool `json:"new_revpos,omitempty"`
+	Ms        int  `json:"ms,omitempty"`
 }
 
 type c14pPlan struct {
@@ -79,7 +83,7 @@ func c14pGenerate(seed uint64, tier string, index int) json.RawMessage {
 	for t := 0; t < r.Range(1, 3); t++ {
 		var prog []c14pOp
 		for i := 0; i < r.Range(2, 5); i++ {
-			op := c14pOp{Kind: "push", Doc: r.Intn(c14pDocs)}
+			op := c14pOp{Kind: "push", Doc: r.Intn(c14pDocs), Name: r.Intn(3), NewRevpos: r.Chance(500)}
 			switch x := r.Intn(20); {
 			case x < 8:
 				op.Att = "new"
@@ -341,12 +345,19 @@ func c14pRun(env *verifsim.Env, raw json.RawMessage) *verifsim.Violation {
 			rev, _, atts, exists := current(id)
 			body := map[string]any{"channels": []string{"A"}, "tok": tok}
 			switch op.Att {
-			case "new":
-				content := nextContent()
-				body["_attachments"] = map[string]any{"file": map[string]any{"data": base64.StdEncoding.EncodeToString(content), "content_type": "application/octet-stream"}}
-			case "keep":
-				if a, ok := atts["file"].(map[string]any); ok {
-					body["_attachments"] = map[string]any{"file": map[string]any{"stub": true, "digest": a["digest"], "revpos": a["revpos"], "length": a["length"], "content_type": a["content_type"]}}
+			case "new", "keep":
+				am := map[string]any{}
+				for name, av := range atts {
+					if a, ok := av.(map[string]any); ok {
+						am[name] = map[string]any{"stub": true, "digest": a["digest"], "revpos": a["revpos"], "length": a["length"], "content_type": a["content_type"]}
+					}
+				}
+				if op.Att == "new" {
+					content := nextContent()
+					am[[]string{"file", "file2", "file3"}[op.Name%3]] = map[string]any{"data": base64.StdEncoding.EncodeToString(content), "content_type": "application/octet-stream"}
+				}
+				if len(am) > 0 {
+					body["_attachments"] = am
 				}
 			}
 			path := "/db/" + id
@@ -386,29 +397,54 @@ func c14pRun(env *verifsim.Env, raw json.RawMessage) *verifsim.Violation {
 			body := map[string]any{"channels": []string{"A"}, "tok": tok}
 			listed := map[string]string{}
 			cheated := false
+			names := []string{"file", "file2", "file3"}
+			target := names[op.Name%len(names)]
+			stubs := map[string]any{}
+			// the attachments the parent revision has are kept as stubs (when the client builds on the current revision)
+			keepStubs := func(skip string) {
+				if !exists || op.Parent != "" {
+					return
+				}
+				for name, av := range atts {
+					a, ok := av.(map[string]any)
+					if !ok || name == skip {
+						continue
+					}
+					d, _ := a["digest"].(string)
+					revpos := a["revpos"]
+					if op.NewRevpos {
+						revpos = gen
+					}
+					stubs[name] = map[string]any{"stub": true, "digest": d, "length": a["length"], "revpos": revpos, "content_type": a["content_type"]}
+					listed[name] = d
+					client.mu.Lock()
+					_, has := client.holds[d]
+					if has && op.Cheat == "noproof" {
+						client.cheat[d] = "noproof"
+					}
+					if !has || client.cheat[d] != "" {
+						cheated = true
+					}
+					client.mu.Unlock()
+				}
+			}
 			switch op.Att {
 			case "new":
+				keepStubs(target)
 				content := nextContent()
 				d := c14pDigest(content)
 				client.mu.Lock()
 				client.holds[d] = content
 				client.cheat[d] = op.Cheat
 				client.mu.Unlock()
-				cheated = op.Cheat != ""
-				body["_attachments"] = map[string]any{"file": map[string]any{"stub": true, "digest": d, "length": len(content), "revpos": gen, "content_type": "application/octet-stream"}}
-				listed["file"] = d
+				cheated = cheated || op.Cheat != ""
+				stubs[target] = map[string]any{"stub": true, "digest": d, "length": len(content), "revpos": gen, "content_type": "application/octet-stream"}
+				listed[target] = d
+				body["_attachments"] = stubs
 			case "keep":
-				if a, ok := atts["file"].(map[string]any); ok && exists {
-					d, _ := a["digest"].(string)
-					body["_attachments"] = map[string]any{"file": map[string]any{"stub": true, "digest": d, "length": a["length"], "revpos": a["revpos"], "content_type": a["content_type"]}}
-					listed["file"] = d
-					client.mu.Lock()
-					_, has := client.holds[d]
-					if has && op.Cheat == "noproof" {
-						client.cheat[d] = "noproof"
-					}
-					cheated = !has || client.cheat[d] != ""
-					client.mu.Unlock()
+				keepStubs("")
+				if len(stubs) > 0 {
+					body["_attachments"] = stubs
 				}
 			case "steal":
 				// the digest of an attachment of a document the client cannot read; the client only has other bytes of that length
@@ -502,6 +538,11 @@ func c14pRun(env *verifsim.Env, raw json.RawMessage) *verifsim.Violation {
 					return
 				}
 				if code == 404 {
+					var cur map[string]any
+					if n.adminJSON("GET", "/db/"+a.doc, "", &cur) == 200 && cur["_rev"] == a.rev {
+						vio = verifsim.Vf("C14", "push-read-failed", "push: revision %s of %s was acknowledged and is the document's current revision; it lists attachment %s (%s), whose data cannot be read: %d %s", a.rev, a.doc, name, d, code, data)
+						return
+					}
 					continue // superseded and no longer available: not a statement about integrity
 				}
 				if code != 200 {
@@ -522,17 +563,17 @@ func c14pRun(env *verifsim.Env, raw json.RawMessage) *verifsim.Violation {
 		for i := 0; i <= c14pDocs; i++ {
 			id := docID(i)
 			var cur map[string]any
-			if n.adminJSON("GET", "/db/"+id+"?attachments=true", "", &cur) != 200 {
+			if n.adminJSON("GET", "/db/"+id, "", &cur) != 200 {
 				continue
 			}
 			atts, _ := cur["_attachments"].(map[string]any)
 			for name, av := range atts {
 				a, _ := av.(map[string]any)
 				d, _ := a["digest"].(string)
-				enc, _ := a["data"].(string)
-				data, derr := base64.StdEncoding.DecodeString(enc)
-				if derr != nil || enc == "" {
-					continue
+				code, data := n.adminReq("GET", "/db/"+id+"/"+name, "")
+				if code != 200 {
+					vio = verifsim.Vf("C14", "push-read-failed", "push: the current revision %v of %s lists attachment %s (%s); reading it answers %d %s", cur["_rev"], id, name, d, code, data)
+					return
 				}
 				if c14pDigest(data) != d {
 					vio = verifsim.Vf("C14", "corrupt", "push: the current revision %v of %s serves attachment %s advertised as %s with %d bytes whose digest is %s", cur["_rev"], id, name, d, len(data), c14pDigest(data))
